@@ -125,7 +125,7 @@ MU_quick == { [pre |-> <<1>>, alpha |-> {0, 1, 2, 195, 169}, maxlen |-> 7],     
               [pre |-> <<>>, alpha |-> {0, 1, 2, 17, 97, 98}, maxlen |-> 5] }
 
 VU_thorough == { [pre |-> <<>>, alpha |-> {0, 1, 2, 3, 5, 9, 12, 97, 169, 195}, maxlen |-> 5],
-                 [pre |-> <<>>, alpha |-> {0, 1, 2, 3}, maxlen |-> 8],
+                 [pre |-> <<>>, alpha |-> {0, 1, 2, 3}, maxlen |-> 7],
                  [pre |-> <<2>>, alpha |-> {0, 1, 2, 3, 12}, maxlen |-> 9] }   \* objects (a two-field object needs 9 bytes)
 MU_thorough == { [pre |-> <<1>>, alpha |-> {0, 1, 2, 195, 169}, maxlen |-> 9],
                  [pre |-> <<17>>, alpha |-> {0, 1, 2, 97, 98, 195, 169}, maxlen |-> 7],    \* sorted
